@@ -209,6 +209,9 @@ def run_case(part, m, rng, campaign):
 
 
 def run_shard(campaign, shard, nshards, seed, tier):
+    if campaign == 'api':
+        import apiuse
+        return apiuse.run_api('C20', shard, nshards, seed, tier)
     part = Part()
     rng = random.Random('%s/%s/%s' % (seed, campaign, shard))
     quick = tier != 'thorough'
@@ -220,4 +223,6 @@ def run_shard(campaign, shard, nshards, seed, tier):
 
 def run(ctx):
     run_sharded(ctx, 'C20', 'bind')
-    return RULE, ASSUME
+    run_sharded(ctx, 'C20', 'api', nshards=2)
+    import apiuse
+    return RULE + apiuse.rule_text('C20'), ASSUME
